@@ -68,6 +68,26 @@ RESULTS = {
  "C09-2B": ("C09 (also C10)", "C09/perm-differs/* ; C10/roundtrip/inline", "quick", False, "line variant with a trailing comment that contains a double quote (C10 caught it as it was)"),
  "C10-2A": ("C10", "C10/acyclic-import-rejected", "quick", True, ""),
  "C10-2B": ("C10", "C10/roundtrip/*", "quick", False, "comment lines of 4-13 KB (longer than a lexer read buffer) added to the layout variation"),
+ "C11-2A": ("C11", "C11/hang-on-silent-peer/caskethttp/proxy.(*staticUpstream).healthCheck.func1", "quick", False, "the second validate load of every case now names a silent peer (accepts, never answers) wherever the first names a closed port; a load blocked on it (goroutine in network I/O below a casket frame, confirmed alone in a fresh child) is a hang; phase 2 also gets one accepted head that names a peer"),
+ "C11-2B": ("C11", "C11/disagree/tls/validate-accepts-start-rejects", "quick", False, "start phase also runs two-key site blocks (qualifying name + localhost, both orders) for every tls case, a quarter of the others and every case whose verdict named the site address"),
+ "C12-2A": ("C12", "C12/panic-before/no-response", "quick", False, "scripted behaviours extended with panic(http.ErrAbortHandler) before writing"),
+ "C12-2B": ("C12", "C12/error-return/status-changed/error-return", "quick", False, "1/24 of the cases replayed by a client that half-closes after the request against a handler that takes 25 ms"),
+ "C13-2A": ("C13", "C13/reply-status (502 instead of the responder's status)", "quick", False, "stderr sent as 99..1000 one-line records in a row at one place of the stdout stream (before it, inside the header block, later)"),
+ "C13-2B": ("C13", "C13/reply-status (504 instead of the responder's status)", "quick", False, "the custom rule shape got send_timeout 1s / read_timeout 60s and 1/40 of its replies come after 1.5 s"),
+ "C14-2A": ("C14", "C14/fails-lost", "quick", True, ""),
+ "C14-2B": ("C14", "C14/conns-kept-after-failed-attempt", "quick", False, "retry-accounting rounds: every request fails on host 0 and is parked in another backend; host 0 must read 0 in-flight"),
+ "C15-2A": ("C15", "C15/redirect-missing", "quick", True, ""),
+ "C15-2B": ("C15", "C15/redirect-changes-uri", "quick", True, ""),
+ "C16-2A": ("C16", "C16/valid-reload-failed", "quick", False, "graceful servers whose Stop reports an error (after stopping) added to the server mix"),
+ "C16-2B": ("C16", "C16/process-shutdown-callbacks-not-exactly-once, C16/callbacks-of-discarded-instance-at-shutdown", "quick", False, "three process scenarios in which a failing start/reload is held inside a `park` directive while a second instance starts; judged at process shutdown"),
+ "C17-2A": ("C17", "C17/over-limit-without-too-large-error", "quick", True, ""),
+ "C17-2B": ("C17", "C17/listener-setting-not-strictest/idle", "quick", True, ""),
+ "C18-2A": ("C18", "C18/x-gzip-sibling-recompressed", "quick", True, ""),
+ "C18-2B": ("C18", "C18/static-sibling-stat-fault/*/undecodable", "quick", False, "fault phase: child server under strace with fstat of one precompressed sibling failing with EIO"),
+ "C19-2A": ("C19", "C19/clienthello-split-read", "quick", False, "pool battery: 48 connections trickling an alert record beside 8 honest hellos in 16-64 byte segments"),
+ "C19-2B": ("C19", "C19/panic/fastcgi.(*record).read", "quick", True, ""),
+ "C20-2A": ("C20", "C20/line-unexpected/excepted", "quick", False, "rule prefixes with percent-encoded characters"),
+ "C20-2B": ("C20", "C20/size-mismatch/gzip", "quick", True, ""),
 }
 
 VERIFY = {}
